@@ -29,6 +29,8 @@ enum Op {
     Flood,
     SleepHalf,
     SleepTwo,
+    /// sleep until just (3 ms) before one period has elapsed
+    SleepAlmostOne,
 }
 
 fn op_json(o: &Op) -> Value {
@@ -38,10 +40,11 @@ fn op_json(o: &Op) -> Value {
         Op::Flood => json!("flood(P)"),
         Op::SleepHalf => json!("sleep(T/2)"),
         Op::SleepTwo => json!("sleep(2T)"),
+        Op::SleepAlmostOne => json!("sleep(T-3ms)"),
     }
 }
 
-const OPS: [Op; 5] = [Op::Req(0), Op::Req(1), Op::Flood, Op::SleepHalf, Op::SleepTwo];
+const OPS: [Op; 6] = [Op::Req(0), Op::Req(1), Op::Flood, Op::SleepHalf, Op::SleepTwo, Op::SleepAlmostOne];
 
 #[derive(Clone)]
 struct Inner {
@@ -129,6 +132,9 @@ fn run_sequence(burst: u32, block: bool, seq: &[Op]) -> Result<String, (String, 
                 Op::SleepHalf => {
                     tokio::time::sleep(period / 2).await;
                     // half a period replenishes nothing for sure
+                }
+                Op::SleepAlmostOne => {
+                    tokio::time::sleep(period - Duration::from_millis(3)).await;
                 }
                 Op::SleepTwo => {
                     tokio::time::sleep(period * 2 + Duration::from_millis(2)).await;
@@ -223,7 +229,7 @@ impl Check for C19 {
         CheckMeta {
             property: "C19",
             level: "exploration",
-            rule: "every operation sequence over {req(P), req(Q), flood = burst+2 concurrent req(P), sleep(T/2), sleep(2T)} up to length 4 (quick) / 5 (thorough) x quota (burst 1 or 3, period 40 ms) x {Block, ReturnError}, through two service instances of one layer, executed in REAL time (timing sampled once per sequence); oracle: for every pair of one peer's admissions the count is <= burst + floor(window/period) with the window over-approximated from call/admit brackets; refusals carry wait-nanos > 0 and never reach the service; requests within quota under every timing must be admitted; Block never refuses; distinct = distinct admit/refuse shapes".into(),
+            rule: "every operation sequence over {req(P), req(Q), flood = burst+2 concurrent req(P), sleep(T/2), sleep(2T), sleep(T-3ms)} up to length 4 (quick) / 5 (thorough) x quota (burst 1 or 3, period 40 ms) x {Block, ReturnError}, through two service instances of one layer, executed in REAL time (timing sampled once per sequence); oracle: for every pair of one peer's admissions the count is <= burst + floor(window/period) with the window over-approximated from call/admit brackets; refusals carry wait-nanos > 0 and never reach the service; requests within quota under every timing must be admitted; Block never refuses; distinct = distinct admit/refuse shapes".into(),
             assumptions: vec![
                 "real time: governor's quanta clock and futures-timer are not interceptable; the oracle uses only inequalities that hold under arbitrary scheduling delay".into(),
                 "each sequence is executed once: interleavings of the concurrent flood are sampled, not enumerated".into(),
@@ -254,7 +260,7 @@ impl Check for C19 {
         let mut stack = vec![prefix];
         while let Some(seq) = stack.pop() {
             // sequences of sleeps only, or ending in a sleep, tell nothing new
-            if !matches!(seq.last(), Some(Op::SleepHalf | Op::SleepTwo)) {
+            if !matches!(seq.last(), Some(Op::SleepHalf | Op::SleepTwo | Op::SleepAlmostOne)) {
                 crate::pool::crumb(|| format!("rate limiter sequence {:?}", seq.iter().map(op_json).collect::<Vec<_>>()));
                 out.evaluations += 1;
                 match run_sequence(burst, block, &seq) {
